@@ -82,6 +82,15 @@ def replay_once(ctx, st, res, harness, env, out, summ, r, first, procs):
         m = re.search(r"fatal error: ([^\n]*)\n(?:.*\n)*?goroutine \d+[^\n]*\[running[^\]\n]*\]:\n((?:.*\n){1,40})", p.stderr)
         frames = [l for l in (m.group(2).split("\n") if m else []) if l and not l.startswith("\t")]
         user = [f for f in frames if not f.startswith("runtime.") and not f.startswith("internal/")]
+        # the innermost frame that belongs to the library or to the harness decides whose call it was (third-party code - the
+        # protobuf decoder, the tensor library - runs on behalf of whoever called it; a stack overflow prints the innermost and the
+        # outermost frames only)
+        if not (m and user and user[0].startswith("github.com/advancedclimatesystems/gonnx")):
+            m2 = re.search(r"fatal error: ([^\n]*)\n(?:.*\n)*?goroutine \d+[^\n]*\[running[^\]\n]*\]:\n((?:.*\n)*?)\n", p.stderr)
+            fr2 = [l for l in (m2.group(2).split("\n") if m2 else []) if l and not l.startswith("\t")]
+            owner = [f for f in fr2 if f.startswith("github.com/advancedclimatesystems/gonnx") or f.startswith("main.")]
+            if m2 and owner and owner[0].startswith("github.com/advancedclimatesystems/gonnx"):
+                m, user = m2, owner
         if m and user and user[0].startswith("github.com/advancedclimatesystems/gonnx"):
             path = os.path.join(ctx["replaydir"], "%s-fatal-%s.txt" % (ctx["pid"], st["name"]))
             open(path, "w").write(p.stderr[-20000:])
